@@ -217,6 +217,11 @@ class Env:
         grp.create_dataset('indptr', data=np.array(indptr, dtype=idx_dtype))
         if chunks is not None and len(indices) > 0:
             kw['chunks'] = (min(chunks, len(indices)),)
+        elif chunks is not None and chunks >= 1024:
+            # no stored entry: anndata writes a resizable dataset of shape
+            # (0,) whose chunk shape is h5py's guess for a resizable axis
+            kw['chunks'] = (1024,)
+            kw['maxshape'] = (None,)
         grp.create_dataset('indices',
                            data=np.array(indices, dtype=idx_dtype), **kw)
         if data is not None:
